@@ -70,6 +70,16 @@ _fdr2qvalue = Contract(
 
 # spec function shared by tdc and its callers: tdc_q(scores, target, desc)[i] is the q-value of PSM i
 TDC_Q = Ghost("tdc_q", "nd[real], nd[bool], bool -> nd[real]")
+# the same spec function together with its extensionality stipulation (for callers that rebuild the label vector)
+TDC_Q_EXT = Ghost("tdc_q", "nd[real], nd[bool], bool -> nd[real]", axioms=[
+    # the spec function depends on the CONTENT of the label vector only
+    "forall(lambda s, A, B, d: implies(A == B, same(tdc_q(s, A, d), tdc_q(s, B, d))), "
+    "types={'s': 'nd[real]', 'A': 'nd[bool]', 'B': 'nd[bool]', 'd': 'bool'}, "
+    "trigger=lambda s, A, B, d: (tdc_q(s, A, d), tdc_q(s, B, d)))",
+    # one q-value per score
+    "forall(lambda s, A, d: len(tdc_q(s, A, d)) == len(s), types={'s': 'nd[real]', 'A': 'nd[bool]', 'd': 'bool'}, "
+    "trigger=lambda s, A, d: tdc_q(s, A, d))",
+])
 
 tdc = Contract(
     target="mokapot.qvalues.tdc",
